@@ -21,12 +21,12 @@ cp $out/patch.diff $out/demo.py /verif/seeded/$id/
 [ -f $out/notes.md ] && cp $out/notes.md /verif/seeded/$id/
 python3 - "$id" "$t_mut" <<'P'
 import json, sys
-pid, tm = sys.argv[1], sys.argv[2]
+sid, tm = sys.argv[1], sys.argv[2]
+pid = sid.split('-')[0]
 prop = [json.loads(l) for l in open('/verif/properties.jsonl') if json.loads(l)['id'] == pid][0]
-notes = open('/verif/seeded/%s/notes.md' % pid).read() if True else ''
 json.dump({'property': pid, 'title': prop['title'], 'source': 'independent sub-agent given only the property text and a scratch worktree',
            'needs_to_manifest': 'see notes.md', 'confirmed': {'pytest_with_change': tm, 'demo_with_change_exit': 1, 'demo_clean_exit': 0,
            'applies_to_repo_head': True, 'how': 'tools/confirm_seed.sh in the scratch worktree (C modules rebuilt for both states)'},
-           'detected_by': []}, open('/verif/seeded/%s/meta.json' % pid, 'w'), indent=1)
+           'detected_by': []}, open('/verif/seeded/%s/meta.json' % sid, 'w'), indent=1)
 P
 cd /; git -C /repo worktree remove --force $wt && echo "stored /verif/seeded/$id, worktree removed"
